@@ -4,6 +4,7 @@ import EupsModel.Lemmas.Order
 (components, component lists in both modes, lexed names), the general unfolding equation of
 `cmpSort`, agreement of the strict with the sorting mode. -/
 set_option linter.unusedVariables false
+set_option linter.unusedSimpArgs false
 namespace EupsModel.VersionCmp
 open EupsModel
 
